@@ -1325,6 +1325,112 @@ fn xm_sig(c: &XmCase, f: &Fail) -> String {
 // ---------------------------------------------------------------------------------------
 // replay
 
+// ---------------------------------------------------------------------------------------
+// (e) client-server error responses: every ErrorKind (default features) with its extra fields, through
+// Error -> http::Response -> Error::from_http_response (ruma-client-api/src/error.rs)
+
+fn error_kinds() -> Vec<(&'static str, ruma_client_api::error::ErrorKind)> {
+    use ruma_client_api::error::{ErrorKind as K, RetryAfter};
+    use std::time::Duration;
+    vec![
+        ("BadAlias", K::BadAlias),
+        ("BadJson", K::BadJson),
+        ("BadState", K::BadState),
+        ("BadStatus/none", K::BadStatus { status: None, body: None }),
+        ("BadStatus/both", K::BadStatus { status: Some(http::StatusCode::BAD_GATEWAY), body: Some("upstream said \"no\"".into()) }),
+        ("CannotLeaveServerNoticeRoom", K::CannotLeaveServerNoticeRoom),
+        ("CannotOverwriteMedia", K::CannotOverwriteMedia),
+        ("CaptchaInvalid", K::CaptchaInvalid),
+        ("CaptchaNeeded", K::CaptchaNeeded),
+        ("ConnectionFailed", K::ConnectionFailed),
+        ("ConnectionTimeout", K::ConnectionTimeout),
+        ("DuplicateAnnotation", K::DuplicateAnnotation),
+        ("Exclusive", K::Exclusive),
+        ("Forbidden", K::forbidden()),
+        ("GuestAccessForbidden", K::GuestAccessForbidden),
+        ("IncompatibleRoomVersion/v11", K::IncompatibleRoomVersion { room_version: ruma_common::RoomVersionId::V11 }),
+        ("IncompatibleRoomVersion/custom", K::IncompatibleRoomVersion { room_version: ruma_common::RoomVersionId::try_from("org.example.x").unwrap() }),
+        ("InvalidParam", K::InvalidParam),
+        ("InvalidRoomState", K::InvalidRoomState),
+        ("InvalidUsername", K::InvalidUsername),
+        ("LimitExceeded/none", K::LimitExceeded { retry_after: None }),
+        ("LimitExceeded/delay", K::LimitExceeded { retry_after: Some(RetryAfter::Delay(Duration::from_secs(12))) }),
+        ("MissingParam", K::MissingParam),
+        ("MissingToken", K::MissingToken),
+        ("NotFound", K::NotFound),
+        ("NotJson", K::NotJson),
+        ("NotYetUploaded", K::NotYetUploaded),
+        ("ResourceLimitExceeded", K::ResourceLimitExceeded { admin_contact: "mailto:admin@example.org".into() }),
+        ("ResourceLimitExceeded/empty", K::ResourceLimitExceeded { admin_contact: String::new() }),
+        ("RoomInUse", K::RoomInUse),
+        ("ServerNotTrusted", K::ServerNotTrusted),
+        ("ThreepidAuthFailed", K::ThreepidAuthFailed),
+        ("ThreepidDenied", K::ThreepidDenied),
+        ("ThreepidInUse", K::ThreepidInUse),
+        ("ThreepidMediumNotSupported", K::ThreepidMediumNotSupported),
+        ("ThreepidNotFound", K::ThreepidNotFound),
+        ("TooLarge", K::TooLarge),
+        ("UnableToAuthorizeJoin", K::UnableToAuthorizeJoin),
+        ("UnableToGrantJoin", K::UnableToGrantJoin),
+        ("Unauthorized", K::Unauthorized),
+        ("Unknown", K::Unknown),
+        ("UnknownToken/soft", K::UnknownToken { soft_logout: true }),
+        ("UnknownToken/hard", K::UnknownToken { soft_logout: false }),
+        ("Unrecognized", K::Unrecognized),
+        ("UnsupportedRoomVersion", K::UnsupportedRoomVersion),
+        ("UrlNotSet", K::UrlNotSet),
+        ("UserDeactivated", K::UserDeactivated),
+        ("UserInUse", K::UserInUse),
+        ("UserLocked", K::UserLocked),
+        ("UserSuspended", K::UserSuspended),
+        ("WeakPassword", K::WeakPassword),
+        ("WrongRoomKeysVersion/none", K::WrongRoomKeysVersion { current_version: None }),
+        ("WrongRoomKeysVersion/some", K::WrongRoomKeysVersion { current_version: Some("42".into()) }),
+    ]
+}
+
+const ERROR_STATUSES: [u16; 6] = [400, 401, 403, 404, 429, 500];
+
+fn eval_error(kind_idx: usize, status: u16, message: &str, t: &mut Tally) -> Vec<(String, String)> {
+    use ruma_client_api::error::{Error, ErrorBody};
+    use ruma_common::api::EndpointError;
+    let kinds = error_kinds();
+    let (name, kind) = &kinds[kind_idx % kinds.len()];
+    let status = http::StatusCode::from_u16(status).unwrap_or(http::StatusCode::BAD_REQUEST);
+    let err = Error::new(status, ErrorBody::Standard { kind: kind.clone(), message: message.to_owned() });
+    let before = format!("{err:?}");
+    t.transitions += 1;
+    let http1 = match catch(|| err.try_into_http_response::<Vec<u8>>()) {
+        Err(p) => return vec![(format!("error/{name}/panic-encode"), p.text)],
+        Ok(Err(e)) => return vec![(format!("error/{name}/encode-error"), format!("{before}: {e}"))],
+        Ok(Ok(r)) => r,
+    };
+    let m1 = Msg::of_response(&http1);
+    t.transitions += 1;
+    let back = match catch(|| Error::from_http_response(http1)) {
+        Err(p) => return vec![(format!("error/{name}/panic-decode"), p.text)],
+        Ok(b) => b,
+    };
+    let after = format!("{back:?}");
+    t.outcome("client-error", if matches!(back.body, ErrorBody::Standard { .. }) { "standard" } else { "degraded" });
+    if after != before {
+        return vec![(format!("error/{name}/value-changed"), format!("{before} sent as {} arrives as {after}", m1.show()))];
+    }
+    t.transitions += 1;
+    match catch(|| back.try_into_http_response::<Vec<u8>>()) {
+        Err(p) => vec![(format!("error/{name}/panic-encode"), p.text)],
+        Ok(Err(e)) => vec![(format!("error/{name}/reencode-error"), format!("{before}: {e}"))],
+        Ok(Ok(r)) => {
+            let m2 = Msg::of_response(&r);
+            if m2 != m1 {
+                vec![(format!("error/{name}/reencode-differs"), format!("{} vs {}", m1.show(), m2.show()))]
+            } else {
+                vec![]
+            }
+        }
+    }
+}
+
 fn replay_case(case: &Value, tier: Tier) -> Vec<(String, String)> {
     let mut t = Tally::new();
     let part = case["part"].as_str().unwrap_or("");
@@ -1375,6 +1481,12 @@ fn replay_case(case: &Value, tier: Tier) -> Vec<(String, String)> {
                 .unwrap_or_else(|e| engine::machinery_error(&format!("replay: {e}")));
             eval_xmatrix(&c, &mut t).into_iter().map(|f| (xm_sig(&c, &f), f.detail)).collect()
         }
+        "error" => eval_error(
+            case["kind"].as_u64().unwrap_or(0) as usize,
+            case["status"].as_u64().unwrap_or(400) as u16,
+            case["message"].as_str().unwrap_or(""),
+            &mut t,
+        ),
         _ => engine::machinery_error("replay: unknown part"),
     }
 }
@@ -1414,6 +1526,7 @@ fn main() {
          same alphabet and bound. (c) every subset of the {nv} MatrixVersion variants (2^{nv}), listed oldest-first, newest-first and rotated, x the history of every endpoint of the five \
          API crates ({nmeta} METADATA consts) x synthetic histories (<= 2 unstable paths, stable paths at <= 3 of 5 versions, deprecated / \
          removed at every legal position{ladder}): make_endpoint_url and versioning_decision_for vs the reference selection. \
+         (e) client-server error responses: every ErrorKind of the default feature set with its extra fields x 6 status codes x every message of <= 2 symbols, Error -> http::Response -> Error::from_http_response -> re-encode; \
          (d) authorization header: 6 schemes x 4 SendAccessToken kinds x every token of <= 2 symbols (+ control characters); \
          XMatrix: 5 server names x 3 destinations x key algorithm = every string of <= {xl} symbols over {XM_ALPHABET:?} x 2 key versions \
          x 5 signatures. state = one distinct complete input; transition = one call of a real conversion / selection function",
@@ -1531,6 +1644,22 @@ fn main() {
             }
         }
     });
+
+    // ---- (e) client-server error responses
+    let n_kinds = error_kinds().len();
+    let messages = strings_upto(&ALPHABET, 2);
+    par_shards(&report, if run("e") { n_kinds } else { 0 }, |ki, t| {
+        for status in ERROR_STATUSES {
+            for m in &messages {
+                t.states += 1;
+                t.nontrivial += 1;
+                for (sig, detail) in eval_error(ki, status, m, t) {
+                    report.violation(&sig, || detail, || json!({"part": "error", "kind": ki, "status": status, "message": m}));
+                }
+            }
+        }
+    });
+    report.set("client_error_kinds", json!(n_kinds));
 
     report.set("matrix_versions", json!(all.iter().map(|v| v.as_str().unwrap_or("1.0 (r0.x)")).collect::<Vec<_>>()));
     report.set("version_subsets", json!(n_masks));
